@@ -1,18 +1,40 @@
 """Adversarial handler checks shared by C03, C04, C05, C06: catalogue from FaultCat.tla (TLC), execution on real
 protocols (hadv), trace validation against Handler.tla (TLC), property-level predicates from the harness."""
+import re
 import json, os, random
 import vlib, handler_common as hc
 
 STRUCTURAL = {"null", "absent", "huge", "trunc", "extend", "empty", "emptymap", "emptyarr", "duplast", "droplast", "emptytext", "max"}
 
 
-def build_scenarios(wd, proto, n, t, kinds, seed, limit=None, scheds=1, cross=False, alts=None, start_id=0):
+def _field_name(cat, c):
+    """Path of the altered leaf with list positions removed: /Mod/Responses/17/Z -> /Mod/Responses/#/Z."""
+    for s in cat["slots"]:
+        if s["round"] == c["round"] and bool(s["b"]) == bool(c["b"]) and c["leaf"] < len(s["leaves"]):
+            return re.sub(r"/\d+(?=/|$)", "/#", s["leaves"][c["leaf"]]["Path"])
+    return "?"
+
+
+def build_scenarios(wd, proto, n, t, kinds, seed, limit=None, scheds=1, cross=False, alts=None, start_id=0, pool=False, fieldwise=False):
     cat = hc.fault_catalogue(wd, proto, n, t, seed)
     cases = []
     if "equiv" in kinds:
         cases += cat["equiv"]
     if "fault" in kinds:
-        cases += [c for c in cat["fault"] if alts is None or c["alt"] in alts]
+        fl = [c for c in cat["fault"] if alts is None or c["alt"] in alts]
+        if fieldwise:
+            # one case per (message slot, field name, alteration): the first list position, a cheater and recipient
+            # that rotate with the seed
+            groups = {}
+            for c in sorted(fl, key=lambda c: json.dumps(c, sort_keys=True)):
+                groups.setdefault((c["round"], c["b"], _field_name(cat, c), c["alt"]), []).append(c)
+            fl = []
+            for k in sorted(groups, key=str):
+                g = groups[k]
+                first = min(x["leaf"] for x in g)
+                g = [x for x in g if x["leaf"] == first]
+                fl.append(g[seed % len(g)])
+        cases += fl
     if "hdr" in kinds:
         cases += cat["hdr"]
     cases.sort(key=lambda c: json.dumps(c, sort_keys=True))
@@ -32,6 +54,8 @@ def build_scenarios(wd, proto, n, t, kinds, seed, limit=None, scheds=1, cross=Fa
             s.pop("react", None)
             if c["kind"] == "equiv" and cross and k % 2 == 1:
                 s["cross"] = True
+            if pool:
+                s["pool"] = True
             scen.append(s)
             i += 1
     return scen, total, cat
@@ -53,7 +77,8 @@ def run_family(rep, wd, plan, prop, seed, count_props, shards=8, extra_scen=()):
     cat_total = 0
     for p in plan:
         sc, total, cat = build_scenarios(wd, p["proto"], p["n"], p["t"], p["kinds"], seed, p.get("limit"), p.get("scheds", 1),
-                                         p.get("cross", False), p.get("alts"), start_id=len(scen))
+                                         p.get("cross", False), p.get("alts"), start_id=len(scen), pool=p.get("pool", False),
+                                         fieldwise=p.get("fieldwise", False))
         scen += sc
         cat_total += total
         states += cat["tlc"]["distinct"]; trans += cat["tlc"]["generated"]
